@@ -581,6 +581,17 @@ def cases(tier, seed):
     out = []
     for f in FAMILIES:
         out.extend(f(tier, rng))
+    # the same loop nests written on ONE line with colons: several blocks of one kind begin on the same row (what the machine
+    # makes of a block must not depend on the row alone)
+    import copy
+    from run_c15 import mark_colon_prog
+    extra = []
+    for c in out:
+        if c["fam"].startswith(("nest", "for:", "empty")) and len(extra) < (3000 if tier == "thorough" else 300):
+            p = copy.deepcopy(c["prog"])
+            if mark_colon_prog(p):
+                extra.append({"fam": "colon:" + c["fam"], "prog": p})
+    out += extra
     for i, c in enumerate(out):
         c["id"] = i + 1
     return out
